@@ -109,22 +109,39 @@ func (e *Engine) Load(patterns []string) error {
 		}
 		visit(p.Types)
 	}
-	// contracts in the loaded packages
-	for _, p := range pkgs {
-		for _, f := range p.CompiledGoFiles {
-			if filepath.Base(f) != "zz_contracts_verif.go" {
-				continue
-			}
-			cs, defs, err := ParseContractFile(p.PkgPath, f)
-			if err != nil {
-				return err
-			}
-			for _, d := range defs {
-				e.defs[d.Name] = d
-			}
-			e.contractFiles = append(e.contractFiles, f)
-			e.addContracts(cs)
+	// contract files of every package in the repository: the loaded packages'
+	// functions are verified against them, other packages' contracts are used
+	// at call sites (they are proved under the property that loads that package)
+	modPath := "github.com/conduitio/conduit"
+	var cfiles []string
+	filepath.WalkDir(e.repo, func(path string, d os.DirEntry, err error) error {
+		if err != nil {
+			return nil
 		}
+		if d.IsDir() && (d.Name() == ".git" || d.Name() == "node_modules" || d.Name() == "vendor") {
+			return filepath.SkipDir
+		}
+		if !d.IsDir() && d.Name() == "zz_contracts_verif.go" {
+			cfiles = append(cfiles, path)
+		}
+		return nil
+	})
+	sort.Strings(cfiles)
+	for _, f := range cfiles {
+		rel, _ := filepath.Rel(e.repo, filepath.Dir(f))
+		pkgPath := modPath
+		if rel != "." {
+			pkgPath = modPath + "/" + filepath.ToSlash(rel)
+		}
+		cs, defs, err := ParseContractFile(pkgPath, f)
+		if err != nil {
+			return err
+		}
+		for _, d := range defs {
+			e.defs[d.Name] = d
+		}
+		e.contractFiles = append(e.contractFiles, f)
+		e.addContracts(cs)
 	}
 	// trusted contracts for functions outside the loaded packages
 	vcs, _ := filepath.Glob(filepath.Join(e.verifDir, "spec", "*.vc"))
